@@ -273,7 +273,7 @@ class Aggregate:
 
 def write_replay(prop, tier, res, signature, message, shrunk, dirname="replays"):
     os.makedirs(os.path.join(ROOT, dirname), exist_ok=True)
-    name = "%s-%d.json" % (prop, res["seed"])
+    name = "%s-%d-%s.json" % (prop, res["seed"], hashlib.sha1(repr(list(signature)).encode()).hexdigest()[:6])
     path = os.path.join(ROOT, dirname, name)
     final = shrunk.get("final") if shrunk and shrunk.get("ok") else None
     doc = {
